@@ -153,6 +153,10 @@ CORPUS = [
     (B, "C07,C08", "dof/_tools.py", "offsets = np.insert(field.offsets, 0, 0)", "offsets = np.insert(np.array(field.fieldsizes)[:-1], 0, 0)"),
     (B, "C13", "region/_boundary.py", "            point_selection = np.arange(len(mesh.points))[mask]", "            point_selection = np.flatnonzero(mask)"),
     (B, "C19", "tools/_project.py", "    A = IntegralFormCartesian(np.ones((1, 1)), v=v, dV=dV, u=u).assemble()", "    A = IntegralFormCartesian(np.ones((1, 1)), v=v, dV=region.dV, u=u).assemble()"),
+    # ---- round 12: the repair reverted and the three classes its misses taught
+    (B, "C14", "mechanics/_pointload.py", "        np.add.at(force[self.apply_on], self.points, self.values)\n", "        force[self.apply_on][self.points] += self.values\n"),
+    (B, "C06", "region/_region.py", "                if np.any(region.dV < 0):\n", "                if np.any(region.dV.sum(axis=1) < 0):\n"),
+    (K, "C06", "region/_region.py", "                if np.any(region.dV < 0):\n", "                if np.any(np.any(region.dV < 0, axis=0)):\n"),
     # ---- round 11: the repair reverted and its classes
     (B, "C01,C14", "mechanics/_multipoint.py", "        self.points = np.unique(ids[self.points])\n", "        self.points = ids[self.points]\n"),
     (B, "C01,C14", "mechanics/_multipoint.py", "        self.points = np.unique(np.arange(self.mesh.npoints)[self.points])\n", "        self.points = np.arange(self.mesh.npoints)[self.points]\n"),
